@@ -196,6 +196,30 @@ Theorem C04_summaries_ok_of : forall s recs,
 Proof. exact summaries_ok_of. Qed.
 Print Assumptions C04_summaries_ok_of.
 
+(* ---------- the two guards on the file are needed ---------- *)
+
+(* without [last_line_safe]: `track` on a valid file whose unterminated last line ends in a carriage return changes
+   the summary of an EXISTING entry (the CR and the added LF read back as a CRLF ending) - the unguarded property
+   "changes no other record, entry, summary" is false of the code *)
+Theorem C04_unterminated_cr_refuted :
+  exists file', exec_simple w_now w_cfg (Track DDefault [b!"2h"]) w_file_cr = COk file' /\
+    option_map (map (fun r => map e_summary (rec_entries r))) (records_of (parse_text w_file_cr)) = Some [[[b!"foo" ++ [13%N]]]] /\
+    option_map (map (fun r => map e_summary (rec_entries r))) (records_of (parse_text file')) = Some [[[b!"foo"]; [[]]]].
+Proof. exact last_line_cr_witness. Qed.
+Print Assumptions C04_unterminated_cr_refuted.
+
+(* without [open_entry_ok]: two files with the SAME records on which the same `stop --summary x` yields DIFFERENT
+   records - a model on parsed records cannot be exact there *)
+Theorem C04_same_records_different_effect_refuted :
+  records_of (parse_text w_file_blank) = records_of (parse_text w_file_noblank) /\
+  records_of (parse_text w_file_blank) <> None /\
+  exists f1 f2, exec_simple w_now w_cfg (Stop w_args (Some [b!"x"])) w_file_blank = COk f1 /\
+                exec_simple w_now w_cfg (Stop w_args (Some [b!"x"])) w_file_noblank = COk f2 /\
+                option_map (map (fun r => map e_summary (rec_entries r))) (records_of (parse_text f1)) = Some [[[b!" x"]]] /\
+                option_map (map (fun r => map e_summary (rec_entries r))) (records_of (parse_text f2)) = Some [[[b!"x"]]].
+Proof. exact trailing_blank_witness. Qed.
+Print Assumptions C04_same_records_different_effect_refuted.
+
 (* ---------- non-vacuity: a file, a history with all kinds of effects, the model's prediction, and the real run ---------- *)
 Definition ex_t (h m : Z) : s_time := {| st_shift := 0; st_hh := h; st_pad := false; st_mm := m; st_clock := C24 |}.
 Definition ex_doc : s_doc :=
